@@ -74,9 +74,17 @@ def run_case(case):
     pos = rng.normal(size=3) * 100
     af, eff = case["af"], case["eff"]
 
+    # dipole band: random centre and width (the default ARA-like 250 +- 150 MHz in one case out of four)
+    if rng.random() < 0.25:
+        fc_d, bw_d = 250e6, 300e6
+    else:
+        fc_d = float(rng.uniform(100e6, 600e6))
+        bw_d = float(rng.uniform(0.1, 1.5) * fc_d)
+    fl_d, fh_d = fc_d - bw_d / 2, fc_d + bw_d / 2
+
     def mk(zz, xx):
         if kind == "dipole":
-            return pa.DipoleAntenna("d", pos, 250e6, 300e6, 300, 50, orientation=zz, noisy=False)
+            return pa.DipoleAntenna("d", pos, fc_d, bw_d, 300, 50, orientation=zz, noisy=False)
         if kind == "gain":
             return GainAnt(pos, z_axis=zz, x_axis=xx, antenna_factor=af, efficiency=eff, noisy=False)
         if kind == "system":
@@ -102,6 +110,10 @@ def run_case(case):
         pol = d * rng.uniform(0.2, 3) * float(rng.choice([-1, 1]))
     fr_ = case["force_real"]
     before = (s.times.copy(), s.values.copy(), s.value_type)
+    if kind == "dipole":
+        # another dipole with another band, used first on the very same time grid, must leave this one's response alone
+        other = pa.DipoleAntenna("o", pos + 1.0, fc_d * 1.9, bw_d * 0.4, 300, 50, orientation=z, noisy=False)
+        other.apply_response(Signal(t, s.values, vt), direction=d, polarization=pol, force_real=fr_)
     o = ant.apply_response(s, direction=d, polarization=pol, force_real=fr_)
     ov = np.array(o.values)
     v.check(o.value_type == Signal.Type.voltage, "response is a voltage", got=str(o.value_type))
@@ -117,7 +129,9 @@ def run_case(case):
     th_tol = 1e-12 + 4 * EPS / max(np.sin(th), np.sqrt(EPS))
     if kind == "dipole":
         dg, pg = np.sin(th), float(np.dot(pn, base.z_axis))
-        H = base.frequency_response
+        # first-order analog Butterworth band-pass between the band edges, written out: s B / (s^2 + s B + w0^2), s = i 2 pi f
+        H = lambda f: 1j * np.asarray(f) * (fh_d - fl_d) / (fl_d * fh_d - np.asarray(f) ** 2 + 1j * np.asarray(f) * (fh_d - fl_d))
+        v.close("dipole frequency response == first-order Butterworth band-pass over its band", float(np.max(np.abs(np.asarray(base.frequency_response(np.array([0.0, 1e7, fl_d, fc_d, fh_d, 2e9]))) - H(np.array([0.0, 1e7, fl_d, fc_d, fh_d, 2e9]))))), 1e-12, band=[fl_d, fh_d])
         # a dipole's gains as stated: sin(theta) from its axis, projection of the polarization on its axis
         v.close("dipole directional gain == sin(angle from its axis)", abs(base.directional_gain(theta=th, phi=phi) - np.sin(th)), 1e-12)
         v.close("dipole polarization gain == projection on its axis", abs(base.polarization_gain(pn) - np.dot(pn, base.z_axis)), 1e-12)
